@@ -2,6 +2,24 @@
 import json
 
 BUILT = {
+ 'C01': dict(
+  text=("Seeded search over short histories of real solver calls (fresh and "
+        "caller-supplied fields, return_info on/off, all cycle x sslsolver x "
+        "semicoarsening x line-relaxation x smoothing x clevel x tol x maxit "
+        "combinations sampled) under a scripted environment: a contract-"
+        "abiding adversary around the real SciPy Krylov solver (suppressed "
+        "callbacks, abort with legal non-zero / break-down codes), numeric "
+        "break-down injected after a scheduled smoothing call (NaN/Inf; "
+        "finite blow-up only for stand-alone multigrid) and clock jumps. "
+        "Every verdict is checked against an independently assembled "
+        "finite-integration operator."),
+  note=("Trusted: discretize's edge curl and inner products (the oracle "
+        "operator); slack 0.5 on tol*||s|| for recurrence-vs-true residual "
+        "drift of the SciPy solvers; finite numeric faults are not injected "
+        "under a Krylov solver (a false success there would be the fault's "
+        "doing)."),
+  design='DESIGN.md §4 C01',
+  technique='deterministic simulation: scripted solver environment (Krylov adversary, numeric fault injection) with an independent-operator oracle'),
  'C11': dict(
   text=("Seeded search over simulated executions of the real Simulation/"
         "process_map/io code on a simulated process pool (both back ends), "
